@@ -149,10 +149,14 @@ def entries():
                                              Spec("raise[coupling]", fit_then(CP_PLSR, pk, None), {"X": Xr, "y": L(lambda c: mat((5, 2), c, 55))})], "regression")
     add("regression.CP_PLSR.predict", [CP_PLSR.predict],
         [Spec("new-data", fit_then(CP_PLSR, pk, lambda est, X, y, Xnew: est.predict(Xnew)), {"X": Xr, "y": Y2, "Xnew": Xn}),
+         Spec("new-data,y[vector]", fit_then(CP_PLSR, pk, lambda est, X, y, Xnew: est.predict(Xnew)), {"X": Xr, "y": yr, "Xnew": Xn}),
          Spec("raise[shape]", fit_then(CP_PLSR, pk, lambda est, X, y, Xnew: est.predict(Xnew)), {"X": Xr, "y": Y2, "Xnew": L(lambda c: mat((4, 2, 2), c, 53))})], "regression")
     add("regression.CP_PLSR.transform", [CP_PLSR.transform],
         [Spec("X-only", fit_then(CP_PLSR, pk, lambda est, X, y, Xnew: est.transform(Xnew)), {"X": Xr, "y": Y2, "Xnew": Xn}),
          Spec("X+Y", fit_then(CP_PLSR, pk, lambda est, X, y, Xnew, Ynew: est.transform(Xnew, Ynew)), {"X": Xr, "y": Y2, "Xnew": Xn, "Ynew": L(lambda c: mat((4, 2), c, 56))}),
+         Spec("X+Y[vector]", fit_then(CP_PLSR, pk, lambda est, X, y, Xnew, Ynew: est.transform(Xnew, Ynew)), {"X": Xr, "y": yr, "Xnew": Xn, "Ynew": L(lambda c: mat((4,), c, 57))}),
+         Spec("X[matrix]+Y[vector]", fit_then(CP_PLSR, pk, lambda est, X, y, Xnew, Ynew: est.transform(Xnew, Ynew)),
+              {"X": L(lambda c: mat((6, 4), c, 54)), "y": yr, "Xnew": L(lambda c: mat((4, 4), c, 58)), "Ynew": L(lambda c: mat((4,), c, 57))}),
          Spec("raise[Y-shape]", fit_then(CP_PLSR, pk, lambda est, X, y, Xnew, Ynew: est.transform(Xnew, Ynew)), {"X": Xr, "y": Y2, "Xnew": Xn, "Ynew": L(lambda c: mat((4, 3), c, 56))})], "regression")
     add("regression.CP_PLSR.fit_transform", [CP_PLSR.fit_transform], [Spec("default", lambda X, Y: CP_PLSR(**pk).fit_transform(X, Y), {"X": Xr, "Y": Y2})], "regression")
     add("regression.CP_PLSR.score", [CP_PLSR.score], [Spec("default", fit_then(CP_PLSR, pk, lambda est, X, y, Xnew, Ynew: est.score(Xnew, Ynew)),
